@@ -46,6 +46,8 @@ type C08Sc struct {
 	// Block family: one block instruction in a hostile layout (C09's free layout: wrap at 0xFFFF,
 	// ranges over the instruction itself), breakpoint behind it
 	Block *C09Sc `json:"block,omitempty"`
+	// NilIO: no I/O device attached in either world (requests are raised by the memory device all the same)
+	NilIO bool `json:"nil_io,omitempty"`
 	// MaxSteps > 0: the Step-driven twin may need this many Steps per Run (family "long")
 	MaxSteps int `json:"max_steps,omitempty"`
 }
@@ -91,6 +93,11 @@ func (c08) Gen(r *world.Rng, tier string, n int) interface{} {
 			sc.BP = append(sc.BP, b.Regs.PC) // a breakpoint on the repeating instruction itself
 		}
 		sc.Dumb = r.Chance(1, 3)
+		if !sc.Dumb && r.Chance(1, 3) {
+			// while the instruction repeats (PC stays where it is) a device arms a breakpoint on that very
+			// address, in place: the Step in progress is the last one
+			sc.BPEdits = []C08BPEdit{{AtTick: uint64(r.Range(3, 40)), Set: []uint16{b.Regs.PC}}}
+		}
 		for i := r.Range(1, 4); i > 0; i-- {
 			sc.Host = append(sc.Host, HostOp{Op: "run"})
 		}
@@ -165,6 +172,7 @@ func (c08) Gen(r *world.Rng, tier string, n int) interface{} {
 	} else {
 		sc.Family = "structured"
 		sc.Dumb = r.Chance(1, 8)
+		sc.NilIO = !sc.Dumb && r.Chance(1, 8)
 		o := gen.Opts{IO: true, Blocks: r.Range(3, 16), MaxSubs: 3, EI: true, StartEI: r.Chance(3, 4)}
 		p := gen.Structured(r, o)
 		p.Regs.IM = mode
@@ -325,6 +333,9 @@ func c08New(sc *C08Sc) (*world.Machine, error) {
 		copy(dm, m.Bus.Mem[:])
 		m.CPU.Memory = dm
 	}
+	if sc.NilIO {
+		m.CPU.IO = nil
+	}
 	if !sc.NilBP || len(sc.BP) > 0 {
 		m.CPU.BreakPoints = map[uint16]struct{}{}
 		for _, a := range sc.BP {
@@ -360,16 +371,26 @@ func applyBP(cpu *z80.CPU, op HostOp) {
 func stepRun(m *world.Machine, maxSteps int) (err error, steps int, haltExec bool, ok bool) {
 	dm, bare := m.CPU.Memory.(z80.DumbMemory)
 	for steps < maxSteps {
-		var opBefore uint8
+		var before [4]uint8
 		if bare {
-			opBefore = dm[m.CPU.PC]
+			for i := range before {
+				before[i] = dm[m.CPU.PC+uint16(i)]
+			}
 		}
 		si := m.StepNoBoundary()
 		steps++
 		if bare {
-			// no memory history on the bare library type: HALT executed = not an acceptance, the byte at PC was
-			// 76h BEFORE the Step (a block instruction may write one there) and PC did not move
-			si.Halted = !si.Accepted && opBefore == 0x76 && m.CPU.PC == si.Before.PC
+			// no memory history on the bare library type: HALT executed = not an acceptance, PC is left on a
+			// byte that was 76h BEFORE the Step (a block instruction may write one there), with nothing but
+			// ignored index prefixes in front of it, and the refresh counter says that all of those bytes were
+			// fetched in this Step (a prefix consumed on its own leaves PC on the 76h as well, one fetch short)
+			k := m.CPU.PC - si.Before.PC
+			si.Halted = !si.Accepted && k <= 3 && before[k&3] == 0x76 && (m.CPU.IR.Lo-si.Before.IR.Lo)&0x7f == uint8(k)+1
+			for i := uint16(0); i < k && k <= 3; i++ {
+				if before[i] != 0xdd && before[i] != 0xfd {
+					si.Halted = false
+				}
+			}
 		}
 		if m.CPU.BreakPoints != nil {
 			if _, hit := m.CPU.BreakPoints[m.CPU.PC]; hit {
